@@ -227,3 +227,189 @@ Example C13_fixed_restores_failing_query :
   r = QErr ENotFound /\ obs_eq d d' /\ kvs_get (vals d') 1 = [(DString [x6b], DI64 1)].
 Proof. exact fixed_restores_failing_query. Qed.
 Print Assumptions C13_fixed_restores_failing_query.
+
+(* ======================================================================================
+   ALL QUERY KINDS, AND WHOLE HISTORIES  (supersedes the two `_partial` theorems above)
+   theories/PstepOpsProofs.v, QueryPstepsProofs.v, InvSimProofs.v, RollbackInvProofs.v, NoPanicProofs.v,
+   HistoryAtomicProofs.v, HistoryAtomicExamples.v.
+
+   The decomposition of InsertNodes, InsertEdges, InsertValues, Remove (nodes with the cascade over their
+   edges, edges) and RemoveValues into the 14 primitives of C13_step_inverse needs side conditions that
+   are exactly what the joint invariant `Inv` of C09 / C10 / C11 (Props/C10.v: graph wf, aliases a
+   bijection onto existing nodes, no element with two equal keys, indexes exact, values only on existing
+   elements) provides — C13_primitives_from_Inv:
+     - a removed / replaced pair of an existing element is listed in the index on its key (idx_exact);
+     - a slot handed out by the allocator carries no values and no alias (vals_live, alias_nodes);
+     - remove_node_db removes every incident edge (with its values) before the node (graph wf).
+   Hence every mutating query, whatever its outcome, and every prefix of a transaction, is a sequence of
+   primitives (C13_query_decomposes; `reach rv d d1` = capacities only grow, and when db_ok d holds and
+   capacity (gr d1) <= 2^63, psteps rv d d1), and C13_rollback_restores applies.
+
+   HInv d  =  Inv d /\ db_ok d /\ undo d = []     (both invariants, outside a transaction)
+   restored d d' = obs_eq d d' /\ same degree counters /\ same ids handed out next (C13_restored_def).
+   hitem = HQuery q (Db::exec / exec_mut: one query as its own transaction)
+         | HTxn qs fail_at_end (transaction_mut running qs, then failing or not);
+   run_item / run_items run a history; item_peak = the state just before the commit / rollback;
+   item_failed = the query returned an error / the transaction was rolled back;
+   bounded rv d its = the capacity of every item_peak along the history is <= 2^63.
+
+   SCOPE (the two hypotheses that are not in the property text):
+     (a) item_ok / query_ok: no insert list names a key twice (C09's quantifier).  Both invariants have a
+         unique-keys component; and WITHOUT this quantifier "no observable effect" is FALSE for the model
+         (hence, the model being faithful, presumably for the code): C13_duplicate_keys_refuted.
+     (b) the capacity bound 2^63 (ids fit i64; slot 2^63 would collide with the free-list sentinel
+         i64::MIN) — `bounded` / the `capacity ... <= two63z` premises.
+   ====================================================================================== *)
+From Agdb Require GraphSim.
+From Agdb Require Import AliasProofs IndexDb3Proofs DbInvProofs QueryInvProofs QStepProofs InvSimProofs RollbackInvProofs
+  PstepOpsProofs QueryPstepsProofs TraversalLiveProofs NoPanicProofs WfRepProofs HistoryAtomicProofs HistoryAtomicInv HistoryAtomicExamples.
+
+Theorem C13_restored_def :
+  forall d d', restored d d' <->
+    obs_eq d d' /\
+    (forall n, slot_kind (gr d) n = KNode ->
+       edge_count_from (gr d) n = edge_count_from (gr d') n /\ edge_count_to (gr d) n = edge_count_to (gr d') n) /\
+    (forall k, capacity (gr d) + Z.of_nat k <= two63z -> capacity (gr d') + Z.of_nat k <= two63z ->
+       next_slots k (gr d) = next_slots k (gr d')).
+Proof. intros d d'. reflexivity. Qed.
+Print Assumptions C13_restored_def.
+
+(* what Inv provides to the primitives *)
+Theorem C13_primitives_from_Inv :
+  forall d, Inv d ->
+  (forall id, live d id = true -> idx_has_all d id) /\
+  (live d (fst (insert_node_db d)) = false /\
+   kvs_get (vals (snd (insert_node_db d))) (fst (insert_node_db d)) = [] /\
+   imap_key (aliases d) (fst (insert_node_db d)) = None) /\
+  (forall n alias d0, 0 < n -> live d n = true ->
+     match alias with Some al => imap_value (aliases d) al = Some n | None => True end ->
+     remove_node_db d n alias = (d0, None) ->
+     reach rv_fixed d (remove_all_values d0 n)).
+Proof.
+  intros d Hd. split; [intros id Hl; now apply idx_has_all_of_Inv|]. split.
+  - pose proof (insert_node_db_fresh d Hd) as Hf. split; [exact Hf|]. split; [apply (insert_node_db_Inv d Hd)|].
+    now apply fresh_no_alias.
+  - intros n alias d0 Hn Hl Hal E. exact (remove_node_full_reach rv_fixed eq_refl eq_refl d n alias d0 Hd Hn Hl Hal E).
+Qed.
+Print Assumptions C13_primitives_from_Inv.
+
+Theorem C13_reach_def :
+  forall d d1, reach rv_fixed d d1 <->
+    capacity (gr d) <= capacity (gr d1) /\ (db_ok d -> capacity (gr d1) <= two63z -> psteps rv_fixed d d1).
+Proof. intros d d1. reflexivity. Qed.
+Print Assumptions C13_reach_def.
+
+(* every query (all kinds), whatever its outcome, and every prefix of a transaction *)
+Theorem C13_query_decomposes :
+  (forall d q, query_ok q -> Inv d -> reach rv_fixed d (fst (exec_in_txn rv_fixed d q))) /\
+  (forall qs d acc, Forall query_ok qs -> Inv d -> reach rv_fixed d (fst (fst (txn_run rv_fixed d qs acc)))).
+Proof.
+  split.
+  - exact (exec_in_txn_reach rv_fixed eq_refl eq_refl eq_refl search_live_fixed).
+  - exact (txn_run_reach rv_fixed eq_refl eq_refl eq_refl eq_refl search_live_fixed).
+Qed.
+Print Assumptions C13_query_decomposes.
+
+(* the repaired code never panics, so a query / transaction always ends in a commit or a rollback *)
+Theorem C13_no_panic :
+  forall d q, snd (exec_in_txn rv_fixed d q) <> QPanic.
+Proof. exact (exec_in_txn_no_panic rv_fixed eq_refl). Qed.
+Print Assumptions C13_no_panic.
+
+(* every rollback keeps the graph invariant and the alias bijection; Inv is invariant under `sim` *)
+Theorem C13_rollback_keeps_wf :
+  forall d d', rollback rv_fixed d = ROk d' -> uok d -> GraphSim.wf (gr d) -> alias_bij d ->
+    GraphSim.wf (gr d') /\ alias_bij d'.
+Proof. exact (rollback_wf_bij rv_fixed). Qed.
+Print Assumptions C13_rollback_keeps_wf.
+
+Theorem C13_Inv_of_sim :
+  forall d d', Inv d -> UndoDb.sim d' d -> GraphSim.wf (gr d') -> alias_bij d' -> Inv d'.
+Proof. exact Inv_of_sim. Qed.
+Print Assumptions C13_Inv_of_sim.
+
+(* the C13 well-formedness follows from the joint invariant (theories/WfRepProofs.v: the graph invariant
+   wf of C08 implies the array well-formedness `rep` of C13 when the capacity fits i64), so Inv is the
+   only assumption on the state below *)
+Theorem C13_db_ok_from_Inv :
+  forall d, Inv d -> capacity (gr d) <= two63z -> db_ok d.
+Proof. exact Inv_db_ok. Qed.
+Print Assumptions C13_db_ok_from_Inv.
+
+(* ---- a failing query: ALL query kinds, from EVERY state satisfying Inv (outside a transaction) ---- *)
+Theorem C13_exec_failure_restores :
+  forall d q d' e,
+    query_ok q -> Inv d -> undo d = [] -> capacity (gr (fst (exec_in_txn rv_fixed d q))) <= two63z ->
+    exec rv_fixed d q = (d', QErr e) ->
+    restored d d' /\ Inv d' /\ undo d' = [] /\ capacity (gr d') <= two63z.
+Proof. exact exec_failure_restores_Inv. Qed.
+Print Assumptions C13_exec_failure_restores.
+
+(* ---- a transaction: committed, or failing at any point (a failing query, or a failure injected after
+        the last query): the results are those of the queries run, the state satisfies HInv, and when it
+        failed the state is restored ---- *)
+Theorem C13_transaction_failure_restores :
+  forall d qs fail_at_end,
+    Forall query_ok qs -> Inv d -> undo d = [] -> capacity (gr (fst (fst (txn_run rv_fixed d qs [])))) <= two63z ->
+    let r := transaction rv_fixed d qs fail_at_end in
+    (Inv (fst r) /\ undo (fst r) = [] /\ capacity (gr (fst r)) <= two63z) /\
+    snd r = snd (fst (txn_run rv_fixed d qs [])) /\
+    (negb (snd (txn_run rv_fixed d qs []) && negb fail_at_end) = true -> restored d (fst r)).
+Proof. exact transaction_atomic_Inv. Qed.
+Print Assumptions C13_transaction_failure_restores.
+
+(* ---- every history of queries and transactions from the empty database, failing or not: at every
+        point both invariants hold, and every failed item was a no-op observationally ---- *)
+Theorem C13_history_atomic :
+  forall its pre it post,
+    Forall item_ok its -> bounded rv_fixed db_new its -> its = pre ++ it :: post ->
+    let a := run_items rv_fixed db_new pre in
+    HInv a /\ HInv (run_item rv_fixed a it) /\
+    (item_failed rv_fixed a it = true -> restored a (run_item rv_fixed a it)).
+Proof. exact history_atomic_fixed. Qed.
+Print Assumptions C13_history_atomic.
+
+Theorem C13_history_invariant :
+  forall its, Forall item_ok its -> bounded rv_fixed db_new its ->
+    Inv (run_items rv_fixed db_new its) /\ db_ok (run_items rv_fixed db_new its) /\ undo (run_items rv_fixed db_new its) = [].
+Proof. exact history_HInv_fixed. Qed.
+Print Assumptions C13_history_invariant.
+
+(* non-vacuity: seven items; a query failing part-way on an indexed value, a transaction failing at the
+   end after removing an aliased node with its edge (cascade) and creating a node in the freed slot, a
+   transaction whose third query fails, a committed removal *)
+Example C13_history_nonvacuous :
+  Forall item_ok ha_history /\ bounded rv_fixed db_new ha_history /\
+  failed_flags db_new ha_history = [false; false; false; true; true; true; false].
+Proof. exact ha_history_ok. Qed.
+Print Assumptions C13_history_nonvacuous.
+
+Example C13_history_states :
+  let d3 := run_items rv_fixed db_new (firstn 3 ha_history) in
+  let d6 := run_items rv_fixed db_new (firstn 6 ha_history) in
+  let d7 := run_items rv_fixed db_new ha_history in
+  elements (gr d3) = [1; 2; -3] /\ obs_eqb d3 d6 = true /\
+  next_slots 3 (gr d3) = next_slots 3 (gr d6) /\
+  search rv_fixed d6 {| s_algorithm := AIndex; s_origin := QId 0; s_destination := QId 0; s_limit := 0; s_offset := 0;
+                        s_order_by := []; s_conditions := [Cond LAnd MNone (CKeyValue ha_k CEqual (DI64 1))] |} = SOk [1] /\
+  imap_value (aliases d6) [x61] = Some 1 /\ imap_value (aliases d6) [x62] = None /\
+  elements (gr d7) = [1] /\ undo d7 = [].
+Proof. exact ha_history_states. Qed.
+Print Assumptions C13_history_states.
+
+(* ---- why (a) is needed: with a key named twice in one insert list, a rolled-back transaction is
+        observable.  History: `insert nodes values [[k:1, k:2]]` (node 1 gets BOTH pairs), then the
+        transaction [remove values k from node 1; fail].  Rollback re-appends the pairs newest first:
+        node 1 ends with [k:2, k:1] — equal for obs_eq (multisets), but a key lookup reads the first
+        pair: `search elements where k == 1` returns [1] before and [] after the failed transaction. ---- *)
+Theorem C13_duplicate_keys_refuted :
+  ~ query_ok (InsertNodes 1 (Multi [[(ha_k, DI64 1); (ha_k, DI64 2)]]) [] (Ids [])) /\
+  snd (transaction rv_fixed dup_d0 dup_txn true) = [QOk 2 []] /\
+  kvs_get (vals dup_d0) 1 = [(ha_k, DI64 1); (ha_k, DI64 2)] /\
+  kvs_get (vals dup_d1) 1 = [(ha_k, DI64 2); (ha_k, DI64 1)] /\
+  obs_eq dup_d0 dup_d1 /\
+  search rv_fixed dup_d0 dup_search = SOk [1] /\
+  search rv_fixed dup_d1 dup_search = SOk [] /\
+  exec_select rv_fixed dup_d0 (SearchQ dup_search) <> exec_select rv_fixed dup_d1 (SearchQ dup_search).
+Proof. exact dup_keys_witness. Qed.
+Print Assumptions C13_duplicate_keys_refuted.
